@@ -1272,7 +1272,9 @@ func (f *Flooder) verifySleepCommand(cmd *protocol.SleepCommand) error {
 	if timeDiff < 0 {
 		timeDiff = -timeDiff
 	}
-	if timeDiff > f.timestampWindow {
+	// timeDiff is still negative when the difference saturated time.Duration
+	// (timestamp centuries away): negating the minimum duration overflows.
+	if timeDiff < 0 || timeDiff > f.timestampWindow {
 		return fmt.Errorf("timestamp outside validity window (%v old, max %v)", timeDiff, f.timestampWindow)
 	}
 
@@ -1303,7 +1305,9 @@ func (f *Flooder) verifyWakeCommand(cmd *protocol.WakeCommand) error {
 	if timeDiff < 0 {
 		timeDiff = -timeDiff
 	}
-	if timeDiff > f.timestampWindow {
+	// timeDiff is still negative when the difference saturated time.Duration
+	// (timestamp centuries away): negating the minimum duration overflows.
+	if timeDiff < 0 || timeDiff > f.timestampWindow {
 		return fmt.Errorf("timestamp outside validity window (%v old, max %v)", timeDiff, f.timestampWindow)
 	}
 
